@@ -464,7 +464,7 @@ func runC15History(c *ctx, hists []*c15hist) {
 	all := make([][]c15obs, len(hists))
 	run := func(idx []int, attempt int) {
 		var wg sync.WaitGroup
-		sem := make(chan struct{}, 16)
+		sem := make(chan struct{}, vlib.Conc(16))
 		for _, i := range idx {
 			wg.Add(1)
 			sem <- struct{}{}
